@@ -3661,6 +3661,20 @@ func (r *JournalReader) Next() (err error) {
 		return io.EOF
 	}
 
+	// If the database page size is not known yet (journal next to an empty
+	// database file because its first transaction was interrupted), use the
+	// page size recorded in the first journal header.
+	if r.offset == 0 && r.pageSize == 0 {
+		r.pageSize = binary.BigEndian.Uint32(hdr[24:])
+	}
+
+	// Like SQLite's readJournalHdr(), treat a journal without a usable page
+	// size as not being a journal at all. This also protects the frame count
+	// computations below from dividing by zero.
+	if r.pageSize < 512 || r.pageSize > 65536 || r.pageSize&(r.pageSize-1) != 0 {
+		return io.EOF
+	}
+
 	// Read number of frames in journal segment. Set to -1 if no-sync was set
 	// and set to 0 if the journal was not sync'd. In these two cases we will
 	// calculate the frame count based on the journal size.
@@ -3678,6 +3692,12 @@ func (r *JournalReader) Next() (err error) {
 	// Only read sector and page size from first journal header.
 	if r.offset == 0 {
 		r.sectorSize = binary.BigEndian.Uint32(hdr[20:])
+
+		// A sector size that SQLite would reject (readJournalHdr) cannot be used
+		// to locate the segments; with a zero sector size the offset would never advance.
+		if r.sectorSize < 32 || r.sectorSize > 65536 || r.sectorSize&(r.sectorSize-1) != 0 {
+			return io.EOF
+		}
 
 		// Use page size from journal reader, if set to 0.
 		pageSize := binary.BigEndian.Uint32(hdr[24:])
